@@ -95,7 +95,10 @@ def _constants(draw):
                 y0=[draw(st.sampled_from([1.0, -0.5, 2.0])), draw(st.sampled_from([0.0, 1.0, -0.75]))], t0=t0, tf=tf, dt=L * frac,
                 rtol=1e-6, atol=1e-6, cuts=cuts, ks=ks,
                 # (runs without a callback carry no step cap: the slow families always get the callback variant)
-                cb_at=draw(st.sampled_from([None, None, 1, 2, 3] if not slow else [1, 2, 3])), cb_k=draw(st.sampled_from([2.0, -1.0, 0.5])))
+                cb_at=draw(st.sampled_from([None, None, 1, 2, 3] if not slow else [1, 2, 3])), cb_k=draw(st.sampled_from([2.0, -1.0, 0.5])),
+                # the constant is an ndarray held in the constants dict and CHANGED IN PLACE (k[...] = new: same dict, same array
+                # object) instead of being reassigned
+                karray=draw(st.sampled_from([False, False, True])))
 
 
 def parts(tier):
@@ -115,7 +118,15 @@ def _check_constants(case):
 
     def rhs(t, y, k=1.0, **kw):
         return k * (R @ y)
-    consts = dict(k=case["ks"][0])
+    consts = dict(k=case["ks"][0] if not case.get("karray") else np.array(case["ks"][0], dtype=np.float64))
+    if case.get("karray"):
+        labels.append("constant_is_an_array_changed_in_place")
+
+    def set_k(system, value):
+        if case.get("karray"):
+            system.constants["k"][...] = value
+        else:
+            system.constants["k"] = value
     a = de.OdeSystem(rhs, y0=np.array(case["y0"], dtype=np.float64), t=(case["t0"], case["tf"]), dense_output=True, dt=case["dt"],
                      rtol=case["rtol"], atol=case["atol"], constants=consts)
     a.method = M.get(method)
@@ -127,13 +138,13 @@ def _check_constants(case):
         cb_state["pending"] = False
         cb_state["n"] += 1
         if case["cb_at"] is not None and cb_state["n"] == case["cb_at"]:
-            system.constants["k"] = case["cb_k"]          # edited in place, in the middle of a call
+            set_k(system, case["cb_k"])          # edited in place, in the middle of a call
             labels.append("constant_changed_in_callback")
     cb_state = dict(n=0, pending=False, old=None)
     span = case["tf"] - case["t0"]
     targets = [case["t0"] + c * span for c in case["cuts"]] + [None]
     for j, tg in enumerate(targets):
-        a.constants["k"] = case["ks"][j] if not (j > 0 and case["cb_at"] is not None and cb_state["n"] >= case["cb_at"] and False) else a.constants["k"]
+        set_k(a, case["ks"][j])
         # (a callback is attached only when it is to change the constant: the library treats "after a callback" separately)
         # (and then the run has no callback at all, not even the harness' step cap: the case watchdog bounds it)
         err = traj.run_integrate(a, tg, step_limit=(len(a) + (200 if fam in ("implicit_fixed", "implicit_embedded", "richardson") else 1500)) if case["cb_at"] is not None else None,
